@@ -8,6 +8,7 @@ import re
 import subprocess
 
 import gen_validity as gv
+import go2lean_tie as tie
 import vlib
 
 PID = "C10"
@@ -15,9 +16,6 @@ FAMS = ("c10store", "c10mech", "c10http")
 
 
 GEN_FILE = os.path.join(vlib.LEAN, "HeimdallModel", "Gen", "CacheConsts.lean")
-SRC_FILE = os.path.join(vlib.LEAN, "HeimdallModel", "Gen", "CacheTTLSrc.lean")
-SRC_PROPS = os.path.join(vlib.LEAN, "HeimdallModel", "Props", "C10Src.lean")
-SRC_MOD = "HeimdallModel.Props.C10Src"
 
 
 def regenerate(R):
@@ -35,7 +33,18 @@ def regenerate(R):
 
 
 # ---------------------------------------------------------------------------------------------------------------
-# the TTL functions translated from the source (Gen/CacheTTLSrc.lean, Props/C10Src.lean)
+# the TTL functions translated from the source (Gen/CacheTTLSrc.lean, Props/C10Src.lean); shared machinery:
+# tools/go2lean_tie.py
+
+SRC_TIE = tie.Tie(
+    cmd="cachettl", gen_module="HeimdallModel.Gen.CacheTTLSrc", stub_namespace="Heimdall.Validity.Src",
+    what="the TTL functions",
+    trusted="Go -> Lean translator extract/go2lean (go/ast, fails closed outside its subset; regenerates "
+            "Gen/CacheTTLSrc.lean from the whole bodies of getCacheTTL / isCacheEnabled on every run): trusted to keep the "
+            "meaning of the statements it translates; its table of atoms (cmd/cachettl/main.go) says which expressions read "
+            "the remote party's answer and the clock")
+SRC_PROP = tie.Prop("HeimdallModel.Props.C10Src", "Heimdall.Props.C10", always=("HeimdallModel.Spec.CacheTTLBound",))
+
 
 def _src_mod():
     path = os.path.join(vlib.VERIF, "extract", "go2lean", "cachettl.py")
@@ -45,108 +54,20 @@ def _src_mod():
     return mod
 
 
-def regenerate_src(R):
-    """Gen/CacheTTLSrc.lean: getCacheTTL / isCacheEnabled of the current source translated to Lean (extract/go2lean,
-    fails closed: a stub without definitions is written, Props/C10Src.lean stops building)"""
-    mod = _src_mod()
-    with vlib.LeanLock():
-        try:
-            text = mod.regenerate(vlib.REPO, SRC_FILE)
-        except mod.TranslateError as e:
-            return str(e)
-    R.coverage["translated_functions"] = mod.translated_functions(text)
-    return None
-
-
 def step_lean_src(R):
-    """builds Props/C10Src.lean (equality of the translated functions with the model, for all inputs) and audits the
-    axioms of its theorems; the numbers are added to what step_lean recorded for Props/C10.lean"""
-    res = {"ok": False, "failed": [], "failed_theorems": [], "log": "", "axioms": {}}
-    with open(SRC_PROPS) as fh:
-        src = vlib.strip_comments(fh.read())
-    thms, nex = vlib.THM_RE.findall(src), len(vlib.EX_RE.findall(src))
-    res["obligations"] = len(thms) + nex
-    with vlib.LeanLock():
-        rc, log = vlib.lake(["build", SRC_MOD])
-        res["log"] = log[-6000:]
-        if rc != 0:
-            res["failed"] = sorted(set(re.findall(r"error: ([^\n]+)", log)))[:20]
-            # the theorem a reported line belongs to
-            lines = open(SRC_PROPS).read().splitlines()
-            bad = []
-            for ln in sorted({int(x) for x in re.findall(r"Props/C10Src\.lean:(\d+):", log)}):
-                for k in range(min(ln, len(lines)) - 1, -1, -1):
-                    m = vlib.THM_RE.match(lines[k])
-                    if m:
-                        if m.group(1) not in bad:
-                            bad.append(m.group(1))
-                        break
-            res["failed_theorems"] = bad
-        else:
-            audit = os.path.join(vlib.LEAN, ".lake", "audit_C10Src.lean")
-            with open(audit, "w") as fh:
-                fh.write(f"import {SRC_MOD}\nopen Heimdall.Props.C10\n")
-                for t in thms:
-                    fh.write(f"#print axioms {t}\n")
-            p = subprocess.run(["lake", "env", "lean", audit], cwd=vlib.LEAN, capture_output=True, text=True, timeout=900)
-            alog = p.stdout + p.stderr
-            if p.returncode != 0:
-                res["failed"] = ["axiom audit failed: " + alog[-1500:]]
-            else:
-                bad = []
-                for m in re.finditer(r"'([^']+)' (depends on axioms: \[([^\]]*)\]|does not depend on any axioms)", alog):
-                    axs = [a.strip() for a in (m.group(3) or "").replace("\n", " ").split(",") if a.strip()]
-                    res["axioms"][m.group(1).split(".")[-1]] = axs
-                    if not set(axs) <= vlib.ALLOWED_AXIOMS:
-                        bad.append(f"{m.group(1)}: {axs}")
-                missing = [t for t in thms if t not in res["axioms"]]
-                hits = vlib.forbidden_scan()
-                if bad or missing:
-                    res["failed"] = [f"disallowed axioms: {bad}", f"not audited: {missing}"]
-                elif hits:
-                    res["failed"] = ["forbidden tokens: " + "; ".join(hits[:10])]
-                else:
-                    res["ok"] = True
-            if res["ok"] and R.tier == "thorough":
-                p = subprocess.run(["lake", "env", "leanchecker", SRC_MOD], cwd=vlib.LEAN, capture_output=True,
-                                   text=True, timeout=3000)
-                R.coverage["leanchecker_src"] = "ok" if p.returncode == 0 else (p.stdout + p.stderr)[-1500:]
-                if p.returncode != 0:
-                    res["ok"] = False
-                    res["failed"] = ["leanchecker: " + R.coverage["leanchecker_src"]]
-    cov = R.coverage
-    cov["obligations"] = cov.get("obligations", 0) + res["obligations"]
-    cov["discharged"] = cov.get("discharged", 0) + (res["obligations"] if res["ok"] else 0)
-    cov.setdefault("axioms", {}).update(res["axioms"])
-    cov["theorems"] = sorted(set(cov.get("theorems", [])) | set(res["axioms"]))
-    cov["src_theorems"] = thms
-    cov["checker_cmd"] = (cov.get("checker_cmd", "") + f" && lake build {SRC_MOD} && lake env lean .lake/audit_C10Src.lean"
-                          + (f" && lake env leanchecker {SRC_MOD}" if R.tier == "thorough" else ""))
-    cov.setdefault("trusted_base", []).append(
-        "Go -> Lean translator extract/go2lean (go/ast, fails closed outside its subset; regenerates "
-        "Gen/CacheTTLSrc.lean from the whole bodies of getCacheTTL / isCacheEnabled on every run): trusted to keep the "
-        "meaning of the statements it translates; its table of atoms (cmd/cachettl/main.go) says which expressions read "
-        "the remote party's answer and the clock")
+    """Gen/CacheTTLSrc.lean: getCacheTTL / isCacheEnabled of the current source translated to Lean (fails closed: a stub
+    without definitions is written, Props/C10Src.lean stops building); builds Props/C10Src.lean (equality of the
+    translated functions with the model, for all inputs) and audits the axioms of its theorems. Returns (ok,
+    translation error)"""
+    res = tie.step(R, SRC_TIE, SRC_PROP)
     R.lean_src = res
-    return res["ok"]
-
-
-def _lean_run(R, mod, name, text):
-    path = os.path.join(R.tmp, name)
-    with open(path, "w") as fh:
-        fh.write(text)
-    with vlib.LeanLock():
-        return mod.run_lean(vlib.LEAN, path)
+    return res["ok"], res["translate_error"]
 
 
 def spec_verdicts(R, points):
     """`ttlSpecVerdict` (Spec/CacheTTLBound.lean) on TTL values: a list of failed clauses per point"""
     mod = _src_mod()
-    with vlib.LeanLock():
-        rc, log = vlib.lake(["build", "HeimdallModel.Spec.CacheTTLBound"])
-    if rc != 0:
-        return None
-    rc, rows, log = _lean_run(R, mod, "c10src_verdict.lean", mod.verdict_program(points))
+    rc, rows, log = tie.run_lean(R, SRC_TIE, SRC_PROP, "c10src_verdict.lean", mod.verdict_program(points))
     return rows if rc == 0 and len(rows) == len(points) else None
 
 
@@ -174,17 +95,15 @@ def src_search(R, exe):
     code through the c10mech family"""
     mod = _src_mod()
     failed = R.lean_src.get("failed_theorems") or []
-    named = ", ".join(failed) if failed else "; ".join(R.lean_src["failed"])[:300]
+    named = tie.named(R.lean_src)
     payload0 = {"lean_log": R.lean_src["log"], "failed": R.lean_src["failed"], "theorems": failed,
                 "kind": "src-vs-model"}
-    with vlib.LeanLock():
-        rc, log = vlib.lake(["build", "HeimdallModel.Gen.CacheTTLSrc", "HeimdallModel.Spec.CacheTTLBound"])
-    if rc != 0:
+    rc, rows, log = tie.run_lean(R, SRC_TIE, SRC_PROP, "c10src_grid.lean", mod.grid_program())
+    if rc is None:
         R.violation("the Lean translation of the TTL functions (Gen/CacheTTLSrc.lean) does not compile: "
                     + "; ".join(sorted(set(re.findall(r"error: ([^\n]+)", log)))[:4])[:500],
-                    dict(payload0, lean_log=log[-4000:]), no_input=True)
+                    dict(payload0, lean_log=log), no_input=True)
         return
-    rc, rows, log = _lean_run(R, mod, "c10src_grid.lean", mod.grid_program())
     R.coverage["src_grid"] = {"points": len(mod.CFGS) * (len(mod.REMS) * len(mod.NOWS) * 5 + 9),
                               "differing_or_failing": len(rows)}
     if rc != 0:
@@ -648,9 +567,8 @@ def run(R):
         # c10_constants_read_from_source fails; the correspondence run goes on with those constants
         R.violation("the cache constants can no longer be read from the source (extractor fails closed): " + gen_err,
                     {"extractor": "extract/validity (go/ast)", "error": gen_err}, no_input=True)
-    src_err = regenerate_src(R)
     lean_ok = vlib.step_lean(R, PID)
-    src_ok = step_lean_src(R)
+    src_ok, src_err = step_lean_src(R)
     exe = vlib.step_harness(R)
     if exe is None:
         R.violation("harness does not build against /repo (API used by the correspondence check changed)",
@@ -674,6 +592,7 @@ def run(R):
                     no_input=True)
     elif not src_ok:
         src_search(R, exe)
+    tie.restore(SRC_TIE)
     # the replay file carries the first violation: concrete inputs first
     R.violations.sort(key=lambda v: v[2])
     evidence(R, corpus, cases, impl, model, timing)
